@@ -1,3 +1,5 @@
+import e2e
+
 SPEC = {
     "corr": [{"kind": "nf9-wf", "quick": 6000, "thorough": 600000},
              {"kind": "nf9", "quick": 4000, "thorough": 300000},
@@ -7,14 +9,22 @@ SPEC = {
              # (values that alias a recycled receive buffer show only here; seed C03-f)
              {"kind": "pipeline", "quick": 32, "thorough": 1200, "runner": {"pkg": "./vflow", "test": "TestVerifPipeline", "race": False},
               "env": {"VERIF_PIPE_PROTO": "v9"}}],
+    # the information model the templates range over is the LOADED one: start-ups of the real binary with an ipfix.elements file that
+    # adds an extension element, a NetFlow v9 exporter using it, the IPFIX listener switched off (three in four) or on (F34)
+    "extra": [e2e.startup_cycles],
     "rule": "nf9-wf: sessions of well-formed generated NetFlow v9 export packets (template / options template / data "
             "flowsets, any field lengths incl. integers in more octets than their type (size+1..8 and 9..12), data records of any "
             "positive length, flowset padding of 0 .. min(record length - 1, 7) octets) with a "
             "model-independent expected-decode oracle whose expected values are computed from the data types' definitions "
             "(big-endian / two's-complement number of all the field's octets, math/big), not from Interpret; interp: "
             "ipfix.Interpret alone on every FieldType x every field length 0..20 x boundary contents; nf9: mixed stream with about 12 % "
-            "malformed datagrams; non-trivial = the implementation produced a non-error result; distinct = distinct case line",
-    "assumptions": ["information model = the table regenerated from ipfix/rfc5102_model.go (lookupElem is opaque in the proofs)",
+            "malformed datagrams; non-trivial = the implementation produced a non-error result; distinct = distinct case line. "
+            "e2e-startup (8 quick / 64 thorough + the witnesses of corpus/C06): the race build of the binary started with an "
+            "ipfix.elements file that adds one extension element, a NetFlow v9 exporter whose template uses it, the IPFIX listener "
+            "switched off (three in four) or on: the element must be published with the file's type (F34)",
+    "assumptions": ["information model = the table regenerated from ipfix/rfc5102_model.go (lookupElem is opaque in the proofs); that the "
+                    "collector decodes with the INSTALLED model whenever the NetFlow v9 listener is on is C20's obligation "
+                    "gen_load_guard_covers_readers and the e2e start-ups (F34)",
                     "the template cache is modelled as one map keyed by the 32-bit FNV-1 hash (finding K1: colliding keys share an entry)"],
 }
 META = {
